@@ -61,6 +61,8 @@ class Ledger(object):
         self.known = [k for k in load_known() if k.get("property") == prop]
         self.extra = {}
         self.rules_seen = {}
+        self.floor_failures = []
+        self.analysis_notes = []
 
     # ------------------------------------------------------------------
     def ok(self, rule, construct, where="", detail=None):
@@ -113,7 +115,7 @@ class Ledger(object):
 
         self.extra.setdefault("instance_floors", {})[rule] = {"found": found, "floor": floor, "what": what}
         if found < floor:
-            raise AnalysisError(rule, "only %d %s found, expected at least %d (vacuous rule)" % (found, what, floor))
+            self.floor_failures.append("%s: only %d %s found, expected at least %d (vacuous rule)" % (rule, found, what, floor))
 
     # ------------------------------------------------------------------
     def finish(self, digest=None):
@@ -205,5 +207,12 @@ class Ledger(object):
             if v.get("expected") is not None or v.get("found") is not None:
                 out.write("    expected: %s\n    found:    %s\n" % (v.get("expected"), v.get("found")))
             out.write("VIOLATION property=%s replay=%s\n" % (self.prop, p))
+        for nmsg in self.analysis_notes:
+            out.write("  note: analysis stopped early after the violation(s) above: %s\n" % nmsg)
+        if not self.violations and self.floor_failures:
+            for m in self.floor_failures:
+                out.write("ANALYSIS-ERROR property=%s %s\n" % (self.prop, m))
+            out.flush()
+            return 2
         out.flush()
         return 1 if self.violations else 0
